@@ -53,7 +53,8 @@ EXTRACTION_DROPS = ['docstrings', 'type annotations', 'typing.cast (identity)', 
                     'print/warn calls', 'device/dtype keyword arguments',
                     '.to()/.cpu()/.detach()/.float()/.contiguous() (identity on the value model; .clone()/deepcopy allocate)']
 TRUSTED_BASE = [
-    'A-real: python floats / float32 tensor elements are mathematical reals, python ints are mathematical integers',
+    'A-real: python floats / float32 tensor elements are mathematical reals, python ints and integer tensors are mathematical integers (machine arithmetic treated as mathematical) - except tensors '
+    'explicitly converted to torch.int32 / int16 / int8, whose sums, differences and products wrap in two\'s complement; constants of a harness (weight tables, scales) are float64 values taken as exact rationals',
     'library contracts in pyvc/tensor.py, pyvc/torchlib.py and pyvc/fxtrace.py (torch operators, nn.Module bookkeeping, torch.fx tracing / GraphModule / ShapeProp / graph '
     'mutators, networkx digraph operations, builtins, math, itertools) - executable specifications, compared with the real libraries by the CPython cross-check of every harness',
     'z3 4.x (python API 5.1.0) and /usr/bin/cvc5 1.0.3; python ast parser; the pyvc interpreter itself',
